@@ -387,7 +387,12 @@ static int run_case (const char* workdir, int mode, long k, int is_ref)
 		{ int nfd = open("/dev/null", O_RDWR); if (nfd >= 0) { dup2(nfd, 0); dup2(nfd, 1); close(nfd); } }
 		inj_mode = mode; inj_k = k;
 		child_run(pfd[1], workdir, is_ref);
-		if (is_ref) { if (rename("console.out", "../ref.out") < 0) _exit(94); }
+		if (is_ref)
+		{
+			/* a program that fails before it prints anything (corpus family e*: the unconstrained run ends in a
+			 * non-memory error) has no console file: its reference output is empty */
+			if (rename("console.out", "../ref.out") < 0) { int fd = open("../ref.out", O_WRONLY | O_CREAT | O_TRUNC, 0600); if (fd < 0) _exit(94); close(fd); }
+		}
 		_exit(0);
 	}
 	close(pfd[1]);
